@@ -101,6 +101,7 @@ func runHttpCase(c *HttpCase) *HttpResult {
 	// ---- the wire
 	var wire []byte
 	var bounds []int
+	var headEnds []int // wire offsets at which a request head (request line + headers + empty line) ends
 	for i, r := range c.Reqs {
 		var b bytes.Buffer
 		method := "GET"
@@ -129,6 +130,7 @@ func runHttpCase(c *HttpCase) *HttpResult {
 		default:
 			b.WriteString("\r\n")
 		}
+		headEnds = append(headEnds, len(wire)+bytes.Index(b.Bytes(), []byte("\r\n\r\n"))+4)
 		wire = append(wire, b.Bytes()...)
 		bounds = append(bounds, len(wire))
 	}
@@ -179,6 +181,9 @@ func runHttpCase(c *HttpCase) *HttpResult {
 			k := 1 + rnd.Intn(len(body)-off)
 			w.Write(body[off : off+k])
 			off += k
+			if off < len(body) && rnd.Intn(2) == 0 {
+				w.Write(body[off:off]) // an empty Write is a no-op
+			}
 			if midFlush {
 				w.(http.Flusher).Flush()
 				midFlush = false
@@ -207,6 +212,14 @@ func runHttpCase(c *HttpCase) *HttpResult {
 			k = 1 + rnd.Intn(minInt(k, 200))
 		case "perreq":
 			for _, b := range bounds {
+				if b > off {
+					k = b - off
+					break
+				}
+			}
+		case "heads":
+			// every request head arrives in a read of its own; its body arrives together with the next head
+			for _, b := range headEnds {
 				if b > off {
 					k = b - off
 					break
